@@ -62,6 +62,7 @@ type Result struct {
 	PoolReused  int           `json:"pool_reused"`
 	PoolPoison  int           `json:"pool_poisoned"`
 	TempFiles   int           `json:"temp_files"` // multipart parts spilled to disk
+	Trace       []string      `json:"trace,omitempty"`
 }
 
 type job struct {
@@ -271,6 +272,11 @@ func runScenario(t *testing.T, sc Scenario) Result {
 		last = e.s
 	}
 	res.SchedHash = hex.EncodeToString(h.Sum(nil)[:8])
+	if os.Getenv("VERIF_SIM_TRACE") != "" {
+		for _, e := range evs {
+			res.Trace = append(res.Trace, fmt.Sprintf("%d %s", e.at, streams[e.s].Name))
+		}
+	}
 	_, res.PoolReused, _, res.PoolPoison = simrt.PoolCounters()
 	for _, r := range res.Conc {
 		for _, sd := range r.Sides {
